@@ -33,11 +33,17 @@ registration calls the cache clear, and as the last thing it does, after every a
 swap); the clear installs a NEW empty dict object; `_find_views` reads `registry._view_lookup_cache` exactly once
 per call and probes and writes that dict with the same key; a lookup that finds nothing writes nothing; the write
 happens with `registry._lock` held; the probe precedes the adapter lookups, which are the SRO product × view types
-read one by one; the list returned is the one cached. -/
+read one by one; the list returned is the one cached; a list once returned or cached is never changed by a later
+lookup of another key (probed over a chain of three request interfaces in all orders).  REMARK on aliasing: in the
+model a cache entry is a VALUE (`List View` inside `Dict`), so two entries can never share structure and a write to
+one key cannot change another — the model cannot express the aliasing defect of seeded change C15-3 (a cached list
+spliced into while it is also stored under another key); that the implementation's entries behave like values is
+this probed obligation plus the harness's at-rest check (every cached entry = cold scan, after every operation). -/
 theorem source_protocol :
     Gen.C15.recognised = true ∧ sourceProto = Proto.good ∧ Gen.C15.writeUnderLock = true ∧
     Gen.C15.probeBeforeScan = true ∧ Gen.C15.scanInLoop = true ∧ Gen.C15.returnsLocal = true ∧
-    Gen.C15.fallbackFreshDict = true ∧ Gen.C15.lockIsLock = true ∧ 0 < Gen.C15.registerViewCalls := by decide
+    Gen.C15.fallbackFreshDict = true ∧ Gen.C15.lockIsLock = true ∧ 0 < Gen.C15.registerViewCalls ∧
+    Gen.C15.cachedValuesImmutable = true := by decide
 
 /-- GENERATED OBLIGATION.  The cache key determines the scan: every input of `_find_views` whose change alone changes
 the adapter lookups (probed: classifier, view types, request interface, context interface, view name) is
